@@ -10,6 +10,7 @@ CONSTANTS
  Behav <- BehAllVal
  Cancels = TRUE
  Raises = FALSE
+ Misbehaves = FALSE
  ShieldShared = FALSE
 INVARIANT Inv_C04
 INVARIANT Inv_C09
